@@ -145,15 +145,16 @@ theorem convection_nc_multi_one_readoff (c : Cfg ℂ) (hD : c.D = 1) (hN : 0 < c
   simp only [e]
 
 /-- the product `P_K u · ∂ₓ P_K u`, alias-free with the 2/3 rule -/
-theorem dft_u_ux_nifft_rfft (c : Cfg ℂ) (hD : c.D = 1) (hp : c.fp = 2) (hq : c.fq = 3) (hN : 0 < c.N)
+theorem dft_u_ux_nifft_rfft_of_cutoff (c : Cfg ℂ) (hD : c.D = 1) (hq : c.fq ≠ 0) (hK : 3 * Kc c < (c.N : ℤ)) (hN : 0 < c.N)
     (s : ℝ) (hs : c.s = (s : ℂ)) (x : Array ℂ) (hx : IsRealField c.N x) (h : ℤ) (hh : |h| ≤ Kc c) :
     dft c.N (tab c.N fun j => (nifft c (rfftnM 1 c.N x)).getD j 0 *
         (nifft c (tab (c.N / 2 + 1) fun k => deriv c 0 k * (rfftnM 1 c.N x).getD k 0)).getD j 0) h
       = (1 / (c.N : ℂ)) * ∑ m ∈ Finset.Icc (-(Kc c)) (Kc c),
           trunc (Kc c) (dft c.N x) m *
             (Complex.I * (c.s * ((h - m : ℤ) : ℂ)) * trunc (Kc c) (dft c.N x) (h - m)) := by
-  have hq0 : c.fq ≠ 0 := by omega
-  obtain ⟨h3, h2⟩ := Kc_two_thirds c hp hq
+  have hq0 : c.fq ≠ 0 := hq
+  have h3 := hK
+  have h2 := two_Kc_lt_of_three c hK
   have hb := nifft_bandLimited c hD hq0 hN (rfftnM 1 c.N x)
   have hb' := nifft_bandLimited c hD hq0 hN
     (tab (c.N / 2 + 1) fun k => deriv c 0 k * (rfftnM 1 c.N x).getD k 0)
@@ -161,10 +162,10 @@ theorem dft_u_ux_nifft_rfft (c : Cfg ℂ) (hD : c.D = 1) (hp : c.fp = 2) (hq : c
   simp only [trunc_dft_nifft_rfft c hD hq0 hN h2 x hx,
     trunc_dft_nifft_deriv c hD hq0 hN h2 s hs x hx]
 
-/-- **Non-conservative single-channel convection, 1-D, fraction 2/3.**  At a retained stored mode
+/-- **Non-conservative single-channel convection, 1-D, cut-off `3·Kc < N`, e.g. fraction 2/3.**  At a retained stored mode
     the output is `−scale·(1/N) Σ_{m=−Kc}^{Kc} X_m · (i s (h−m)) X_{h−m}`: the coefficient of
     `−b · P_K u · ∂ₓ P_K u`, alias-free; at a dropped mode it is `0`. -/
-theorem convection_nc_one_alias_free (c : Cfg ℂ) (hD : c.D = 1) (hp : c.fp = 2) (hq : c.fq = 3)
+theorem convection_nc_one_alias_free_of_cutoff (c : Cfg ℂ) (hD : c.D = 1) (hq : c.fq ≠ 0) (hK : 3 * Kc c < (c.N : ℤ))
     (hN : 0 < c.N) (s : ℝ) (hs : c.s = (s : ℂ)) (scale : ℂ) (x : Array ℂ) (hx : IsRealField c.N x)
     (single : Bool) (h : ℕ) (hh : h ≤ c.N / 2) :
     (mask c h = 1 →
@@ -173,15 +174,15 @@ theorem convection_nc_one_alias_free (c : Cfg ℂ) (hD : c.D = 1) (hp : c.fp = 2
             trunc (Kc c) (dft c.N x) m *
               (Complex.I * (c.s * (((h : ℤ) - m : ℤ) : ℂ)) * trunc (Kc c) (dft c.N x) ((h : ℤ) - m))))
     ∧ (mask c h = 0 → at2 (convection c 1 scale single false #[rfftnM 1 c.N x]) 0 h = 0) := by
-  have hq0 : c.fq ≠ 0 := by omega
+  have hq0 : c.fq ≠ 0 := hq
   refine ⟨fun hm => ?_, fun hm => convection_zero_off_band c 1 scale single false _ 0 h hm⟩
   have hk : (h : ℤ) ≤ Kc c := (mask_eq_one_iff c hD hq0 h).mp hm
   have hk' : |(h : ℤ)| ≤ Kc c := by rwa [abs_of_nonneg (by positivity)]
   cases single
   · rw [convection_nc_multi_one_readoff c hD hN scale _ h hh, hm, one_mul,
-      dft_u_ux_nifft_rfft c hD hp hq hN s hs x hx (h : ℤ) hk']
+      dft_u_ux_nifft_rfft_of_cutoff c hD hq hK hN s hs x hx (h : ℤ) hk']
   · rw [convection_nc_one_readoff c hD hN scale _ h hh, hm, one_mul,
-      dft_u_ux_nifft_rfft c hD hp hq hN s hs x hx (h : ℤ) hk']
+      dft_u_ux_nifft_rfft_of_cutoff c hD hq hK hN s hs x hx (h : ℤ) hk']
 
 /-! ### `GradientNormNonlinearFun`, 1-D, one channel -/
 
@@ -245,7 +246,7 @@ theorem dft_zero_eq_sum (N : ℕ) (f : ℕ → ℂ) : dft N (tab N f) 0 = ∑ j 
   rw [dft_tab]; simp
 
 /-- the square `(∂ₓ P_K u)²`, alias-free with the 2/3 rule -/
-theorem dft_ux_sq_nifft_rfft (c : Cfg ℂ) (hD : c.D = 1) (hp : c.fp = 2) (hq : c.fq = 3) (hN : 0 < c.N)
+theorem dft_ux_sq_nifft_rfft_of_cutoff (c : Cfg ℂ) (hD : c.D = 1) (hq : c.fq ≠ 0) (hK : 3 * Kc c < (c.N : ℤ)) (hN : 0 < c.N)
     (s : ℝ) (hs : c.s = (s : ℂ)) (x : Array ℂ) (hx : IsRealField c.N x) (h : ℤ) (hh : |h| ≤ Kc c) :
     dft c.N (tab c.N fun j =>
         (nifft c (tab (c.N / 2 + 1) fun k => deriv c 0 k * (rfftnM 1 c.N x).getD k 0)).getD j 0 *
@@ -253,18 +254,19 @@ theorem dft_ux_sq_nifft_rfft (c : Cfg ℂ) (hD : c.D = 1) (hp : c.fp = 2) (hq : 
       = (1 / (c.N : ℂ)) * ∑ m ∈ Finset.Icc (-(Kc c)) (Kc c),
           (Complex.I * (c.s * (m : ℂ)) * trunc (Kc c) (dft c.N x) m) *
             (Complex.I * (c.s * ((h - m : ℤ) : ℂ)) * trunc (Kc c) (dft c.N x) (h - m)) := by
-  have hq0 : c.fq ≠ 0 := by omega
-  obtain ⟨h3, h2⟩ := Kc_two_thirds c hp hq
+  have hq0 : c.fq ≠ 0 := hq
+  have h3 := hK
+  have h2 := two_Kc_lt_of_three c hK
   have hb' := nifft_bandLimited c hD hq0 hN
     (tab (c.N / 2 + 1) fun k => deriv c 0 k * (rfftnM 1 c.N x).getD k 0)
   rw [dft_mul_no_alias' c.N hN (Kc c) h3 _ _ hb' hb' h hh]
   simp only [trunc_dft_nifft_deriv c hD hq0 hN h2 s hs x hx]
 
-/-- **`GradientNormNonlinearFun`, 1-D, one channel, fraction 2/3.**  At a retained stored mode the
+/-- **`GradientNormNonlinearFun`, 1-D, one channel, cut-off `3·Kc < N`, e.g. fraction 2/3.**  At a retained stored mode the
     output is `−scale·½·(1/N) Σ_{m=−Kc}^{Kc} (i s m X_m)(i s (h−m) X_{h−m})`, the coefficient of
     `−b·½·(∂ₓ P_K u)²`, alias-free — except that the zero-mode fix sets the mean mode `h = 0` to `0`;
     at a dropped mode it is `0`. -/
-theorem gradientNorm_one_alias_free (c : Cfg ℂ) (hD : c.D = 1) (hp : c.fp = 2) (hq : c.fq = 3)
+theorem gradientNorm_one_alias_free_of_cutoff (c : Cfg ℂ) (hD : c.D = 1) (hq : c.fq ≠ 0) (hK : 3 * Kc c < (c.N : ℤ))
     (hN : 0 < c.N) (s : ℝ) (hs : c.s = (s : ℂ)) (scale : ℂ) (zeroFix : Bool) (x : Array ℂ)
     (hx : IsRealField c.N x) (h : ℕ) (hh : h ≤ c.N / 2) :
     (mask c h = 1 →
@@ -274,7 +276,7 @@ theorem gradientNorm_one_alias_free (c : Cfg ℂ) (hD : c.D = 1) (hp : c.fp = 2)
             (Complex.I * (c.s * (m : ℂ)) * trunc (Kc c) (dft c.N x) m) *
               (Complex.I * (c.s * (((h : ℤ) - m : ℤ) : ℂ)) * trunc (Kc c) (dft c.N x) ((h : ℤ) - m))))
     ∧ (mask c h = 0 → at2 (gradientNorm c 1 scale zeroFix #[rfftnM 1 c.N x]) 0 h = 0) := by
-  have hq0 : c.fq ≠ 0 := by omega
+  have hq0 : c.fq ≠ 0 := hq
   have hNne : (c.N : ℂ) ≠ 0 := by exact_mod_cast hN.ne'
   refine ⟨fun hm => ?_, fun hm => gradientNorm_zero_off_band c 1 scale zeroFix _ 0 h hm⟩
   have hk : (h : ℤ) ≤ Kc c := (mask_eq_one_iff c hD hq0 h).mp hm
@@ -288,7 +290,7 @@ theorem gradientNorm_one_alias_free (c : Cfg ℂ) (hD : c.D = 1) (hp : c.fp = 2)
   rw [gradientNorm_one_readoff c hD hN scale zeroFix _ h hh, hm, one_mul]
   cases zeroFix
   · simp only [Bool.false_eq_true, if_false, false_and]
-    rw [dft_ux_sq_nifft_rfft c hD hp hq hN s hs x hx (h : ℤ) hk']
+    rw [dft_ux_sq_nifft_rfft_of_cutoff c hD hq hK hN s hs x hx (h : ℤ) hk']
     ring
   · simp only [if_true, true_and]
     rw [dft_sub_const c.N hN]
@@ -298,7 +300,7 @@ theorem gradientNorm_one_alias_free (c : Cfg ℂ) (hD : c.D = 1) (hp : c.fp = 2)
       rw [Nat.cast_zero, dft_zero_eq_sum]
       field_simp
       ring
-    · rw [dft_ux_sq_nifft_rfft c hD hp hq hN s hs x hx (h : ℤ) hk']
+    · rw [dft_ux_sq_nifft_rfft_of_cutoff c hD hq hK hN s hs x hx (h : ℤ) hk']
       ring
 
 /-! ### remaining one-channel 1-D code paths; double masking; Cahn–Hilliard -/
@@ -353,8 +355,8 @@ theorem cahnHilliard_one_readoff (c : Cfg ℂ) (hD : c.D = 1) (hN : 0 < c.N) (sc
     nifft_mask_idem]
 
 /-- **A6 for both code paths.** `ConvectionNonlinearFun(conservative=True)` with one channel in
-    1-D, `single_channel` either way: same alias-free statement as `convection_one_alias_free`. -/
-theorem convection_c_one_alias_free (c : Cfg ℂ) (hD : c.D = 1) (hp : c.fp = 2) (hq : c.fq = 3)
+    1-D, `single_channel` either way: same alias-free statement as `convection_one_alias_free_of_cutoff`. -/
+theorem convection_c_one_alias_free_of_cutoff (c : Cfg ℂ) (hD : c.D = 1) (hq : c.fq ≠ 0) (hK : 3 * Kc c < (c.N : ℤ))
     (hN : 0 < c.N) (scale : ℂ) (x : Array ℂ) (hx : IsRealField c.N x) (single : Bool)
     (h : ℕ) (hh : h ≤ c.N / 2) :
     (mask c h = 1 →
@@ -365,19 +367,19 @@ theorem convection_c_one_alias_free (c : Cfg ℂ) (hD : c.D = 1) (hp : c.fp = 2)
     ∧ (mask c h = 0 →
       at2 (convection c 1 scale single true #[rfftnM 1 c.N x]) 0 h = 0) := by
   cases single
-  · have hq0 : c.fq ≠ 0 := by omega
+  · have hq0 : c.fq ≠ 0 := hq
     refine ⟨fun hm => ?_, fun hm => convection_zero_off_band c 1 scale false true _ 0 h hm⟩
     have hk : (h : ℤ) ≤ Kc c := (mask_eq_one_iff c hD hq0 h).mp hm
     have hk' : |(h : ℤ)| ≤ Kc c := by rwa [abs_of_nonneg (by positivity)]
     rw [convection_c_multi_one_readoff c hD hN scale _ h hh, hm,
-      dft_sq_nifft_rfft c hD hp hq hN x hx (h : ℤ) hk']
+      dft_sq_nifft_rfft_of_cutoff c hD hq hK hN x hx (h : ℤ) hk']
     ring
-  · exact convection_one_alias_free c hD hp hq hN scale x hx h hh
+  · exact convection_one_alias_free_of_cutoff c hD hq hK hN scale x hx h hh
 
-/-- **`CahnHilliardNonlinearFun`, 1-D, fraction 1/2.**  At a retained stored mode the output is
+/-- **`CahnHilliardNonlinearFun`, 1-D, cut-off `4·Kc < N`, e.g. fraction 1/2.**  At a retained stored mode the output is
     `scale · Δ̂_h · (1/N²) Σ_a Σ_b X_a X_b X_{h−a−b}` over the band: the coefficient of
     `scale · Δ (P_K u)³`, alias-free (`4Kc < N`); at a dropped mode it is `0`. -/
-theorem cahnHilliard_one_alias_free (c : Cfg ℂ) (hD : c.D = 1) (hp : c.fp = 1) (hq : c.fq = 2)
+theorem cahnHilliard_one_alias_free_of_cutoff (c : Cfg ℂ) (hD : c.D = 1) (hq : c.fq ≠ 0) (hK : 4 * Kc c < (c.N : ℤ))
     (hN : 0 < c.N) (scale : ℂ) (x : Array ℂ) (hx : IsRealField c.N x) (h : ℕ) (hh : h ≤ c.N / 2) :
     (mask c h = 1 →
       at2 (cahnHilliard c scale #[rfftnM 1 c.N x]) 0 h
@@ -386,11 +388,85 @@ theorem cahnHilliard_one_alias_free (c : Cfg ℂ) (hD : c.D = 1) (hp : c.fp = 1)
               trunc (Kc c) (dft c.N x) a * trunc (Kc c) (dft c.N x) b
                 * trunc (Kc c) (dft c.N x) ((h : ℤ) - a - b)) * scale)
     ∧ (mask c h = 0 → at2 (cahnHilliard c scale #[rfftnM 1 c.N x]) 0 h = 0) := by
-  have hq0 : c.fq ≠ 0 := by omega
+  have hq0 : c.fq ≠ 0 := hq
   refine ⟨fun hm => ?_, fun hm => cahnHilliard_zero_off_band c scale _ 0 h hm⟩
   have hk : (h : ℤ) ≤ Kc c := (mask_eq_one_iff c hD hq0 h).mp hm
   have hk' : |(h : ℤ)| ≤ Kc c := by rwa [abs_of_nonneg (by positivity)]
   rw [cahnHilliard_one_readoff c hD hN scale _ h hh, hm, one_mul,
-    dft_cube_nifft_rfft c hD hp hq hN x hx (h : ℤ) hk']
+    dft_cube_nifft_rfft_of_cutoff c hD hq hK hN x hx (h : ℤ) hk']
+
+
+/-! ### corollaries for the documented fractions 2/3 and 1/2 (literal `fp`, `fq`) -/
+
+/-- `dft_u_ux_nifft_rfft_of_cutoff` for the documented fraction 2/3 -/
+theorem dft_u_ux_nifft_rfft (c : Cfg ℂ) (hD : c.D = 1) (hp : c.fp = 2) (hq : c.fq = 3) (hN : 0 < c.N)
+    (s : ℝ) (hs : c.s = (s : ℂ)) (x : Array ℂ) (hx : IsRealField c.N x) (h : ℤ) (hh : |h| ≤ Kc c) :
+    dft c.N (tab c.N fun j => (nifft c (rfftnM 1 c.N x)).getD j 0 *
+        (nifft c (tab (c.N / 2 + 1) fun k => deriv c 0 k * (rfftnM 1 c.N x).getD k 0)).getD j 0) h
+      = (1 / (c.N : ℂ)) * ∑ m ∈ Finset.Icc (-(Kc c)) (Kc c),
+          trunc (Kc c) (dft c.N x) m *
+            (Complex.I * (c.s * ((h - m : ℤ) : ℂ)) * trunc (Kc c) (dft c.N x) (h - m)) :=
+  dft_u_ux_nifft_rfft_of_cutoff c hD (by omega) (Kc_two_thirds c hp hq).1 hN s hs x hx h hh
+
+/-- `convection_nc_one_alias_free_of_cutoff` for the documented fraction 2/3 -/
+theorem convection_nc_one_alias_free (c : Cfg ℂ) (hD : c.D = 1) (hp : c.fp = 2) (hq : c.fq = 3)
+    (hN : 0 < c.N) (s : ℝ) (hs : c.s = (s : ℂ)) (scale : ℂ) (x : Array ℂ) (hx : IsRealField c.N x)
+    (single : Bool) (h : ℕ) (hh : h ≤ c.N / 2) :
+    (mask c h = 1 →
+      at2 (convection c 1 scale single false #[rfftnM 1 c.N x]) 0 h
+        = -scale * ((1 / (c.N : ℂ)) * ∑ m ∈ Finset.Icc (-(Kc c)) (Kc c),
+            trunc (Kc c) (dft c.N x) m *
+              (Complex.I * (c.s * (((h : ℤ) - m : ℤ) : ℂ)) * trunc (Kc c) (dft c.N x) ((h : ℤ) - m))))
+    ∧ (mask c h = 0 → at2 (convection c 1 scale single false #[rfftnM 1 c.N x]) 0 h = 0) :=
+  convection_nc_one_alias_free_of_cutoff c hD (by omega) (Kc_two_thirds c hp hq).1 hN s hs scale x hx single h hh
+
+/-- `dft_ux_sq_nifft_rfft_of_cutoff` for the documented fraction 2/3 -/
+theorem dft_ux_sq_nifft_rfft (c : Cfg ℂ) (hD : c.D = 1) (hp : c.fp = 2) (hq : c.fq = 3) (hN : 0 < c.N)
+    (s : ℝ) (hs : c.s = (s : ℂ)) (x : Array ℂ) (hx : IsRealField c.N x) (h : ℤ) (hh : |h| ≤ Kc c) :
+    dft c.N (tab c.N fun j =>
+        (nifft c (tab (c.N / 2 + 1) fun k => deriv c 0 k * (rfftnM 1 c.N x).getD k 0)).getD j 0 *
+        (nifft c (tab (c.N / 2 + 1) fun k => deriv c 0 k * (rfftnM 1 c.N x).getD k 0)).getD j 0) h
+      = (1 / (c.N : ℂ)) * ∑ m ∈ Finset.Icc (-(Kc c)) (Kc c),
+          (Complex.I * (c.s * (m : ℂ)) * trunc (Kc c) (dft c.N x) m) *
+            (Complex.I * (c.s * ((h - m : ℤ) : ℂ)) * trunc (Kc c) (dft c.N x) (h - m)) :=
+  dft_ux_sq_nifft_rfft_of_cutoff c hD (by omega) (Kc_two_thirds c hp hq).1 hN s hs x hx h hh
+
+/-- `gradientNorm_one_alias_free_of_cutoff` for the documented fraction 2/3 -/
+theorem gradientNorm_one_alias_free (c : Cfg ℂ) (hD : c.D = 1) (hp : c.fp = 2) (hq : c.fq = 3)
+    (hN : 0 < c.N) (s : ℝ) (hs : c.s = (s : ℂ)) (scale : ℂ) (zeroFix : Bool) (x : Array ℂ)
+    (hx : IsRealField c.N x) (h : ℕ) (hh : h ≤ c.N / 2) :
+    (mask c h = 1 →
+      at2 (gradientNorm c 1 scale zeroFix #[rfftnM 1 c.N x]) 0 h
+        = if zeroFix = true ∧ h = 0 then 0 else
+          -scale * (1 / 2) * ((1 / (c.N : ℂ)) * ∑ m ∈ Finset.Icc (-(Kc c)) (Kc c),
+            (Complex.I * (c.s * (m : ℂ)) * trunc (Kc c) (dft c.N x) m) *
+              (Complex.I * (c.s * (((h : ℤ) - m : ℤ) : ℂ)) * trunc (Kc c) (dft c.N x) ((h : ℤ) - m))))
+    ∧ (mask c h = 0 → at2 (gradientNorm c 1 scale zeroFix #[rfftnM 1 c.N x]) 0 h = 0) :=
+  gradientNorm_one_alias_free_of_cutoff c hD (by omega) (Kc_two_thirds c hp hq).1 hN s hs scale zeroFix x hx h hh
+
+/-- `convection_c_one_alias_free_of_cutoff` for the documented fraction 2/3 -/
+theorem convection_c_one_alias_free (c : Cfg ℂ) (hD : c.D = 1) (hp : c.fp = 2) (hq : c.fq = 3)
+    (hN : 0 < c.N) (scale : ℂ) (x : Array ℂ) (hx : IsRealField c.N x) (single : Bool)
+    (h : ℕ) (hh : h ≤ c.N / 2) :
+    (mask c h = 1 →
+      at2 (convection c 1 scale single true #[rfftnM 1 c.N x]) 0 h
+        = -scale * (1 / 2) * deriv c 0 h *
+            ((1 / (c.N : ℂ)) * ∑ m ∈ Finset.Icc (-(Kc c)) (Kc c),
+              trunc (Kc c) (dft c.N x) m * trunc (Kc c) (dft c.N x) ((h : ℤ) - m)))
+    ∧ (mask c h = 0 →
+      at2 (convection c 1 scale single true #[rfftnM 1 c.N x]) 0 h = 0) :=
+  convection_c_one_alias_free_of_cutoff c hD (by omega) (Kc_two_thirds c hp hq).1 hN scale x hx single h hh
+
+/-- `cahnHilliard_one_alias_free_of_cutoff` for the documented fraction 1/2 -/
+theorem cahnHilliard_one_alias_free (c : Cfg ℂ) (hD : c.D = 1) (hp : c.fp = 1) (hq : c.fq = 2)
+    (hN : 0 < c.N) (scale : ℂ) (x : Array ℂ) (hx : IsRealField c.N x) (h : ℕ) (hh : h ≤ c.N / 2) :
+    (mask c h = 1 →
+      at2 (cahnHilliard c scale #[rfftnM 1 c.N x]) 0 h
+        = laplace c 2 h * ((1 / (c.N : ℂ) ^ 2) *
+            ∑ a ∈ Finset.Icc (-(Kc c)) (Kc c), ∑ b ∈ Finset.Icc (-(Kc c)) (Kc c),
+              trunc (Kc c) (dft c.N x) a * trunc (Kc c) (dft c.N x) b
+                * trunc (Kc c) (dft c.N x) ((h : ℤ) - a - b)) * scale)
+    ∧ (mask c h = 0 → at2 (cahnHilliard c scale #[rfftnM 1 c.N x]) 0 h = 0) :=
+  cahnHilliard_one_alias_free_of_cutoff c hD (by omega) (Kc_half c hp hq) hN scale x hx h hh
 
 end Exponax.Alias
